@@ -15,6 +15,7 @@ var units = map[string]common.UnitFunc{
 	"c11crypto": unitC11crypto,
 	"c11orch":   unitC11orch,
 	"c11sign":   unitC11sign,
+	"c11cctx":   unitC11cctx,
 	"c08":       unitC08,
 	"c18deal":   unitC18deal,
 	"c18dkg":    unitC18dkg,
